@@ -129,6 +129,73 @@ func checkC16(c c16Case, rec *Rec) *Violation {
 			return viol(id, "C16:option-depends-on-call-order", "request matched by no rule, referrer matched by %q: GetCosmeticOption=%03b after GetBasicResult was evaluated, %03b before", c16RuleText(c), g, rules.CosmeticOptionAll)
 		}
 		return nil
+	case "proxy":
+		// end to end: the page is fetched through the proxy server; the option travels in the injected tag.
+		// What the client announces in its Accept header must not matter: the verdict that counts is the
+		// one for the document type known from the response.
+		rg := getProxyRig()
+		if rg.err != nil {
+			rec.Label("proxy-stage-unavailable")
+			return nil
+		}
+		mask := 0
+		for _, m := range c.Mods {
+			for i, x := range c16Mods {
+				if x == m {
+					mask |= 1 << i
+				}
+			}
+		}
+		w := rules.CosmeticOptionAll &^ c16Disabled(c.Mods)
+		for _, accept := range proxyAccepts {
+			body, _, ferr := rg.fetch(c16PageName(mask), accept)
+			if ferr != nil {
+				return viol(id, "C16:harness", "fetch through the proxy: %v", ferr)
+			}
+			_, opt, _, found := splitInjected(body)
+			switch {
+			case w == rules.CosmeticOptionNone && found:
+				return viol(id, "C16:option-reenabled", "page excepted by %q fetched through the proxy (Accept %q): a content script with option %03b is injected although every option is off", "@@"+c16PageName(mask)+"$"+strings.Join(c.Mods, ","), accept, opt)
+			case w != rules.CosmeticOptionNone && !found:
+				return viol(id, "C16:option-mismatch", "page excepted by %q fetched through the proxy (Accept %q): no content script injected, reference option %03b", "@@"+c16PageName(mask)+"$"+strings.Join(c.Mods, ","), accept, w)
+			case found && rules.CosmeticOption(opt) != w:
+				sig := "C16:option-mismatch"
+				if rules.CosmeticOption(opt)&^w != 0 {
+					sig = "C16:option-reenabled"
+				}
+				return viol(id, sig+":through-proxy", "page excepted by %q fetched through the proxy (Accept %q): injected option %03b, reference %03b", "@@"+c16PageName(mask)+"$"+strings.Join(c.Mods, ","), accept, opt, w)
+			}
+		}
+		rec.Label("proxy-end-to-end")
+		return nil
+	case "engine-with-important-block":
+		// an $important blocking rule matches the page as well, listed before or after the exception:
+		// an $important exception still decides the verdict, any other exception does not
+		w := rules.CosmeticOptionAll
+		if inList("important", c.Mods) {
+			w = rules.CosmeticOptionAll &^ c16Disabled(c.Mods)
+		}
+		for _, text := range []string{"||example.org^$important\n" + c16RuleText(c) + "\n", c16RuleText(c) + "\n||example.org^$important\n"} {
+			st, err := filterlist.NewRuleStorage([]filterlist.RuleList{&filterlist.StringRuleList{ID: 1, RulesText: text}})
+			if err != nil {
+				return viol(id, "C16:harness", "storage: %v", err)
+			}
+			res := urlfilter.NewEngine(st).MatchRequest(rules.NewRequest("http://example.org/", "", rules.TypeDocument))
+			if g := res.GetCosmeticOption(); g != w {
+				return viol(id, "C16:option-mismatch", "list %q: GetCosmeticOption=%03b, reference %03b", text, g, w)
+			}
+			both := []*rules.NetworkRule{basic}
+			blk, _ := rules.NewNetworkRule("||example.org^$important", 1)
+			if strings.HasPrefix(text, "||") {
+				both = []*rules.NetworkRule{blk, basic}
+			} else {
+				both = append(both, blk)
+			}
+			if g := rules.NewMatchingResult(both, nil).GetCosmeticOption(); g != w {
+				return viol(id, "C16:option-mismatch", "NewMatchingResult(%q): GetCosmeticOption=%03b, reference %03b", netTexts(both), g, w)
+			}
+		}
+		return nil
 	case "with-replace-rules":
 		// other rule kinds in the verdict do not change what the exception disables
 		other, _ := rules.NewNetworkRule("||example.org^$important", 1)
@@ -249,7 +316,7 @@ func TestC16(t *testing.T) {
 		if shard() != 0 {
 			return nil
 		}
-		for _, kind := range []string{"exception", "engine", "block", "referrer-struct", "referrer-engine", "with-replace-rules"} {
+		for _, kind := range []string{"exception", "engine", "block", "referrer-struct", "referrer-engine", "with-replace-rules", "engine-with-important-block", "proxy"} {
 			for mask := 0; mask < 1<<len(c16Mods); mask++ {
 				c := c16Case{Kind: kind, Mods: c16Subset(mask)}
 				rec.Eval()
